@@ -214,6 +214,10 @@ pub fn run(cfg: &Cfg, log: &mut Log) {
         }
         // file sinks: /dev/full and a real file
         let v = &values(&rc, cfg.seed, 1)[0];
+        if std::fs::OpenOptions::new().write(true).open("/dev/full").is_err() {
+            log.count("dev_full_unavailable", 1);
+            continue;
+        }
         log.count("evaluations", 1);
         match rc.root.store(v, std::path::Path::new("/dev/full")) {
             Err(Fail::Err(SerErr::Write)) => log.count("dev_full_write_error", 1),
